@@ -51,7 +51,8 @@ RULE = ("inventory: random item/category/object nodes (every AssetType/Inventory
         "(0..4 joints, 0..5 keyframes, 0..2 constraints); mesh assets (0..4 LODs x 1..3 materials, optional weights, convex, skin, "
         "havok, unknown and raw segments); transfers: payload sizes within +-5 of every chunk boundary up to 4 chunks x every "
         "arrival sequence of length <= chunks+2 (quick: <= chunks+1), for Xfer (prefixed and raw) and Transfer; shards are split "
-        "over 3 process time zones. distinct_nontrivial = distinct (codec, shape) classes + (size, arrival sequence) pairs")
+        "over 3 process time zones. distinct_nontrivial = distinct (codec, shape) classes + (size, arrival sequence) pairs"
+        ". Round-5 additions: the Xfer receiver in both acknowledgement modes (per packet, turbo); fixed-width strings with NULs before the last character")
 ASSUMPTIONS = [
     "names and descriptions are text without '|', tab, CR, LF and without leading/trailing blanks (the line format cannot carry "
     "them; the viewer itself replaces '|'); strings inside embedded metadata avoid '|', tab, CR, LF for the text flavour only",
